@@ -268,6 +268,9 @@ PINS = {
 for _pid in ('C01', 'C03', 'C06', 'C12'):
     if 'OtterVerif.Props.C01Refine' not in PROPS[_pid]['modules']:
         PROPS[_pid]['modules'].append('OtterVerif.Props.C01Refine')
+for _pid in ('C09', 'C10', 'C11'):
+    if 'OtterVerif.Props.C10Refine' not in PROPS[_pid]['modules']:
+        PROPS[_pid]['modules'].append('OtterVerif.Props.C10Refine')
 for _pid, _mods in PINS.items():
     for _m in _mods:
         _name = 'OtterVerif.Pin.' + _m
